@@ -33,6 +33,9 @@ var Replacements = []struct {
 	{"atbase", map[string]any{"@base": float64(5)}}, {"arr-null", []any{nil}}, {"arr-empty-str", []any{""}},
 }
 
+// ExtremeIntegers replace number leaves when Options.ExtremeInts is set: 2^31-1, 2^31, 2^32, 2^63-1, -1, -2^63, 1e9, 1e11.
+var ExtremeIntegers = []string{"2147483647", "2147483648", "4294967296", "9223372036854775807", "-1", "-9223372036854775808", "1000000000", "100000000000"}
+
 // HostileStrings replace string leaves.
 var HostileStrings = []string{" ", "%zz", "http://a b/", "../", "\x00", "did:nuts:", "did:web:", "#", "a#b#c", "\xff\xfe", strings.Repeat("a", 65536)}
 
@@ -116,6 +119,7 @@ type Options struct {
 	NoBigString  bool     // skip the 64 KiB string
 	SkipPaths    []string // path prefixes left alone
 	UndefinedKey string   // name of the undefined sibling member (default "verifUndefined")
+	ExtremeInts  bool     // also replace number leaves by each of ExtremeIntegers (as exact JSON integers)
 }
 
 // Singles returns every single-operator mutant of doc, in a deterministic, simplest-first order.
@@ -237,6 +241,13 @@ func Singles(doc any, o Options) []Mutant {
 			emit(p, "num-2^32", func(root any) any { return set(root, p, float64(4294967296)) })
 			emit(p, "num-2^63", func(root any) any { return set(root, p, float64(9223372036854775807)) })
 			emit(p, "num-str", func(root any) any { return set(root, p, strconv.FormatFloat(x, 'f', -1, 64)) })
+			if o.ExtremeInts {
+				// exact integers (json.Number keeps them out of float rounding) for fields that size an allocation, a loop or an offset
+				for _, n := range ExtremeIntegers {
+					n := n
+					emit(p, "int:"+n, func(root any) any { return set(root, p, json.Number(n)) })
+				}
+			}
 		case bool:
 			emit(p, "bool-flip", func(root any) any { return set(root, p, !x) })
 		}
